@@ -20,7 +20,7 @@ RULE = ('valid confirmed requests of every supported service (ReadProperty, Writ
         'families (garbage of every layer incl. address-field shapes and network-layer messages interleaved with valid requests, '
         'histories of valid traffic with time passing, routed requests through alternating routers with a planted I-Am-Router, '
         'small max-APDU codes with good/bad segment acks and client aborts, segmented requests in/out of order with duplicates, '
-        'a service that never responds with duplicates / client aborts / time passing, a device with communication disabled): every injected frame is predicted from its raw octets by DeviceRx.device_rx '
+        'routed requests from originators with MAC lengths 1..8, 16, 18, 255 (valid and mutated, behind remote-station and global-broadcast DADRs), a service that never responds with duplicates / client aborts / time passing, a device with communication disabled): every injected frame is predicted from its raw octets by DeviceRx.device_rx '
         '(frames sent with destination, route, PDU type, invoke ID, reason / error class+code, segmentation; server '
         'transactions, their armed timers, orphan timers after each frame and at quiescence) and compared with the stack.')
 TRUSTED = ['model coq/theories/Asap.v + AsapCodec.v = service lookup (registry translated from apdu.py), parameter decoding by the C03 codec model, dispatch and error mapping of ApplicationServiceAccessPoint.indication and Application.indication; '
@@ -501,6 +501,56 @@ def direct(rng, tier, focus=()):
                              'datagrams': [f.hex() for f in frames], 'residue': res})
         nontriv.add(tuple(frames))
     samples.append({'direct': 'BVLL garbage + valid Original-Unicast request', 'example': bvll(0x0a, C.npdu(rp)).hex()})
+
+    # routed requests from originators with a MAC address of every legal length: SLEN 1..8 (MS/TP and ARCNET 1, ZigBee /
+    # IPv6 VMAC 3, Ethernet and B/IP 6, LonTalk Neuron ID 7, ...), 16 and 18 (IPv6 forms), 255 (the largest the octet allows).
+    # A well-formed request is answered as a fresh device answers the same request from a local station, the answer goes
+    # back through the delivering router addressed to SNET/SADR; a request with mutated parameters gets exactly one reply
+    # carrying its invoke ID (never silence); nothing is left behind.  Also behind a global-broadcast DADR.
+    def _route_of(data):
+        if len(data) >= 5 and data[0] == 1 and data[1] & 0x20 and not data[1] & 0x80:
+            dl = data[4]
+            return (data[2] << 8) | data[3], bytes(data[5:5 + dl])
+        return None
+    reps = 4 if tier == 'thorough' else 1
+    for L in c10_dev.MAC_LENGTHS * reps:
+        for name, apdu in pool:
+            snet, sadr = rng.choice([1, 5, 6, 700, 65534]), bytes(rng.randrange(256) for _ in range(L))
+            gb = rng.random() < 0.2
+            variants = [('valid', apdu)] + [rng.choice(C.mutations(rng, apdu, 2)) for _ in range(3)]
+            inv = 160
+            for how, m in variants:
+                n += 1
+                w = C.Device()          # a fresh device per frame: a mutated DeviceCommunicationControl may switch it off
+                node = rng.choice([w.raw, w.raw2])
+                a = bytearray(m); a[2] = inv
+                if gb:
+                    f = bytes([1, 0x2C, 255, 255, 0, snet >> 8, snet & 255, L]) + sadr + bytes([255]) + bytes(a)
+                else:
+                    f = C.npdu_routed(bytes(a), snet, sadr)
+                node.send(C.DEV_ADDR, f)
+                w.settle(120.0)
+                mine = [(C.parse_npdu_apdu(data), _route_of(data)) for src, dst, data in node.frames if src == str(C.DEV_ADDR)]
+                mine = [(r, rt) for r, rt in mine if r is not None and r[0] in (2, 3, 5, 6, 7) and r[1] == inv]
+                got = canon_reply_frames([r for r, rt in mine], inv)
+                bad = None
+                if how == 'valid' and got != clean[name]:
+                    bad = 'routed-request-not-answered-as-a-local-one'
+                elif how != 'valid' and len(got) != 1:
+                    bad = 'routed-mutated-request-not-exactly-one-reply'
+                elif any(rt != (snet, sadr) for r, rt in mine):
+                    bad = 'routed-reply-not-addressed-to-the-originator'
+                if bad:
+                    failures.append({'kind': bad, 'request': name, 'mutation': how, 'slen': L, 'snet': snet, 'sadr': sadr.hex(),
+                                     'global_broadcast_dadr': gb, 'frames': [f.hex()], 'router': str(node.address),
+                                     'replies_at_delivering_router': got, 'expected_if_valid': clean[name],
+                                     'reply_routes': [(rt[0], rt[1].hex()) if rt else None for r, rt in mine],
+                                     'replies_anywhere': canon_reply_frames(w.replies(both=True), inv)})
+                if ssm_residue(w):
+                    failures.append({'kind': 'residue-after-routed-request', 'slen': L, 'frames': [f.hex()], 'residue': ssm_residue(w)})
+                inv += 1
+                nontriv.add(('routed-maclen', L, f))
+    samples.append({'direct': 'routed requests, source MAC lengths 1..8, 16, 18, 255', 'example': C.npdu_routed(pool[0][1], 5, bytes(range(1, 8))).hex()})
     return failures, {'evaluations': n, 'distinct_nontrivial': len(nontriv), 'samples': samples, 'device_level_notes': dict(DEV_STATS)}
 
 
